@@ -5,7 +5,7 @@
    String() in the Go code; UnmarshalControl / UnmarshalText / JSON call the same parser - the tie
    checks those entry points separately). *)
 From Coq Require Import List Ascii String Bool Arith NArith ZArith Lia.
-Require Import GS V3 V4 V9 V11 V12.
+Require Import GS V3 V4 V9 V11 V12 V13.
 Import ListNotations.
 
 (* every rendering: the canonical text of a well-formed triple, with any Unicode whitespace around
@@ -71,6 +71,19 @@ Print Assumptions C03_reject_revision_alphabet.
 Theorem C03_roundtrip : forall x v, parse_u x = Some v -> parse_u (to_string v) = Some v.
 Proof. exact C03u_roundtrip. Qed.
 Print Assumptions C03_roundtrip.
+
+(* StringWithoutEpoch: String is the epoch prefix (when needed) followed by it; for every accepted string whose upstream
+   part has no colon it parses back to the same version with epoch 0 - nothing but the epoch is lost; a parsed version
+   is never Empty() *)
+Theorem C03_string_is_epoch_and_rest : forall v,
+  to_string v = without_epoch v \/ to_string v = itoa (epoch v) ++ colon :: without_epoch v.
+Proof. exact to_string_split. Qed.
+Theorem C03_without_epoch_roundtrip : forall x v, parse_u x = Some v -> contains colon (upstream v) = false ->
+  parse (without_epoch v) = Some (drop_epoch v).
+Proof. exact without_epoch_of_parsed. Qed.
+Theorem C03_parsed_not_empty : forall x v, parse_u x = Some v -> is_empty v = false.
+Proof. exact parsed_not_empty. Qed.
+Print Assumptions C03_without_epoch_roundtrip.
 
 (* non-vacuity and the literal near-misses *)
 Example C03_accepts : parse_u (s " 1:2.0-3~x ") = Some {| epoch := 1; upstream := s "2.0"; revision := s "3~x" |}
